@@ -74,12 +74,158 @@ def gen(ctx, deep):
     return shapes_hists
 
 
+SUBJ = """[request_definition]
+r = sub, obj, act
+[policy_definition]
+p = sub, obj, act, eft
+[role_definition]
+g = _, _
+[policy_effect]
+e = subjectPriority(p_eft) || deny
+[matchers]
+m = g(r.sub, p.sub) && r.obj == p.obj && r.act == p.act
+"""
+SUBJ_DOM = """[request_definition]
+r = sub, obj, dom, act
+[policy_definition]
+p = sub, obj, dom, act, eft
+[role_definition]
+g = _, _, _
+[policy_effect]
+e = subjectPriority(p_eft) || deny
+[matchers]
+m = g(r.sub, p.sub, r.dom) && r.dom == p.dom && r.obj == p.obj && r.act == p.act
+"""
+SNAMES = ["a", "b", "c", "d"]
+
+
+def _reach(g, x):
+    seen, todo = set(), [x]
+    while todo:
+        n = todo.pop()
+        for c, pa in g:
+            if c == n and pa not in seen:
+                seen.add(pa)
+                todo.append(pa)
+    return seen
+
+
+def _subject_case(args):
+    """one subject-priority policy through the real enforcer: stored order, decisions, or the exception"""
+    g, p, dom = args
+    casbin = common.use_repo()
+    text = SUBJ_DOM if dom else SUBJ
+    m = casbin.Enforcer.new_model(text=text)
+    rules = [("g", "g", r) for r in g] + [("p", "p", r) for r in p]
+    ad = pc.make_adapter(casbin, rules)
+    try:
+        e = casbin.Enforcer(m, ad)
+    except Exception as ex:  # noqa
+        return {"error": "!cycle" if "cycle dependency" in str(ex) else f"!other:{type(ex).__name__}:{str(ex)[:60]}"}
+    order = [list(r) for r in e.get_policy()]
+    dec = {}
+    for x in SNAMES:
+        req = [x, "data1", "d1", "read"] if dom else [x, "data1", "read"]
+        try:
+            dec[x] = bool(e.enforce(*req))
+        except Exception as ex:  # noqa
+            dec[x] = f"!{type(ex).__name__}"
+    return {"order": order, "dec": dec}
+
+
+def run_subject(ctx, res, deep):
+    """subject priority: all rooted forests on 4 subjects (and sampled DAGs / cycles) x effect assignments x arrival orders"""
+    import multiprocessing as mp
+
+    rng = ctx["rng"]
+    forests = []
+    for parents in itertools.product([None] + SNAMES, repeat=4):
+        g = [[SNAMES[i], pa] for i, pa in enumerate(parents) if pa is not None and pa != SNAMES[i]]
+        if any(pa == SNAMES[i] for i, pa in enumerate(parents)):
+            continue
+        forests.append(g)  # includes cyclic parent functions: the load must raise
+    dags = []
+    for _ in range(60 if not deep else 600):
+        edges = [[a, b] for a in SNAMES for b in SNAMES if a < b and rng.random() < 0.45]
+        rng.shuffle(edges)
+        dags.append(edges)
+    cases = []
+    for g in forests + dags:
+        efts = [rng.choice(["allow", "deny"]) for _ in SNAMES] if not deep else None
+        eft_sets = [efts] if efts else [list(x) for x in itertools.product(["allow", "deny"], repeat=4)][:: 3]
+        for ef in eft_sets:
+            for dom in (False, True) if (deep or rng.random() < 0.3) else (False,):
+                if dom:
+                    p = [[s, "data1", "d1", "read", e] for s, e in zip(SNAMES, ef)]
+                    gg = [r + ["d1"] for r in g]
+                else:
+                    p = [[s, "data1", "read", e] for s, e in zip(SNAMES, ef)]
+                    gg = [list(r) for r in g]
+                p = p + [[p[0][0]] + p[0][1:-1] + ["deny" if p[0][-1] == "allow" else "allow"]]  # same subject twice: arrival order among equals
+                rng.shuffle(p)
+                cases.append((gg, p, dom))
+    with mp.Pool(12) as pool:
+        outs = pool.map(_subject_case, cases, chunksize=32)
+    lines = []
+    for g, p, dom in cases:
+        lines += ["#reset", "\t".join(["set", "p:p", common.enc_rules(p)]), "\t".join(["sortsubj", "p:p", "2" if dom else "-", common.enc_rules(g)])]
+    answers = common.run_driver("policy", lines)
+    for k, ((g, p, dom), out) in enumerate(zip(cases, outs)):
+        ans = answers[3 * k + 2]
+        model, _ = common.parse_ms(ans)
+        mres, mpol = model.split("@", 1)
+        res.evaluations += 1
+        res.count("subject:" + ("cycle" if mres == "!cycle" else "sorted"))
+        res.nontrivial.add(hash(("subj", repr(g), repr(p))))
+        case = {"shape": "subject-priority" + ("-dom" if dom else ""), "g": g, "p": p}
+        if mres == "!fuel":
+            raise common.Infra("hierarchyLoop ran out of fuel")
+        if "error" in out:
+            if out["error"] != mres:
+                res.disagree({"what": f"subject priority load: impl {out['error']} vs model {mres}", "case": case})
+            if mres != "!cycle":
+                res.violation({"signature": "C07:subject:load-raises", "what": f"loading the acyclic hierarchy {g} raised {out['error']}", "case": case, "expected": "loads", "observed": out["error"], "model_text": SUBJ_DOM if dom else SUBJ, "kind_of_case": "subject"})
+            continue
+        if mres == "!cycle":
+            res.disagree({"what": f"subject priority load: impl loaded a cyclic hierarchy {g}, the model raises", "case": case})
+            continue
+        order = out["order"]
+        if common.enc_rules(order) != mpol:
+            res.disagree({"what": f"subject priority order: impl {order} vs model {common.dec_rules(mpol)}", "case": case})
+        # the property, directly: no rule of an ancestor before a rule of its descendant
+        edges = [(r[0], r[1]) for r in g]
+        bad = None
+        for i, r2 in enumerate(order):
+            for r1 in order[i + 1 :]:
+                if r2[0] in _reach(edges, r1[0]):
+                    bad = (r2, r1)
+                    break
+            if bad:
+                break
+        if bad:
+            res.violation({"signature": "C07:subject:ancestor-first", "what": f"subject priority: with assignments {g} the rule {bad[0]} of an inherited role is stored before the rule {bad[1]} of the more specific subject", "case": case, "expected": "subject before its ancestors", "observed": order, "model_text": SUBJ_DOM if dom else SUBJ, "kind_of_case": "subject"})
+            continue
+        # the more specific subject wins: first definite match in the stored order decides (C01)
+        for x in SNAMES:
+            anc = _reach(edges, x) | {x}
+            exp = False
+            for r in order:
+                if r[0] in anc and r[-1] in ("allow", "deny"):
+                    exp = r[-1] == "allow"
+                    break
+            if out["dec"][x] != exp:
+                res.violation({"signature": "C07:subject:decision", "what": f"subject priority: assignments {g}, stored order {order}: enforce({x}, data1, read) = {out['dec'][x]}, the first definite matching rule gives {exp}", "case": case, "expected": exp, "observed": out["dec"][x], "model_text": SUBJ_DOM if dom else SUBJ, "kind_of_case": "subject"})
+                break
+    res.sample({"subject_priority_case": {"g": cases[len(cases) // 2][0], "p": cases[len(cases) // 2][1]}})
+
+
 def run(ctx):
     res = common.Result()
     stages = [False] if not ctx["deep"] else ([True] if ctx["proof_ok"] else [False, True])
     for deep in stages:
         items = gen(ctx, deep)
         run_many(res, items)
+        run_subject(ctx, res, deep)
         if res.spec_violations:
             break
     res.rule = (
@@ -87,7 +233,9 @@ def run(ctx):
         "and 2 non-matching ones, plus a seeded sample of longer ones, loaded through an adapter; then every single add, batch add (ordered pairs, "
         "repeated rule), remove, batch remove, same-priority and priority-changing update, batch update, filtered removal, and random sequences "
         "of 2-5 of them; after every call the stored order (get_policy) and two decisions are compared with the Lean model and with the "
-        "specification (stable sort of the arrival order; first definite match decides); non-trivial = history with a mutating call"
+        "specification (stable sort of the arrival order; first definite match decides); subject priority: all 625 parent functions on 4 subjects "
+        "(125 rooted forests + the cyclic ones, which must raise) and sampled DAGs x effect assignments x shuffled arrival orders, with and without "
+        "domains: stored order vs model, no ancestor's rule before a descendant's, decisions vs first definite match; non-trivial = history with a mutating call / a policy"
     )
     res.exhaustive = True
     return res
@@ -126,4 +274,25 @@ def _work(group):
 
 
 def replay(obj):
+    if obj.get("kind_of_case") == "subject":
+        c = obj["case"]
+        out = _subject_case((c["g"], c["p"], c["shape"].endswith("-dom")))
+        if "error" in out:
+            return obj.get("expected") == "loads"
+        edges = [(r[0], r[1]) for r in c["g"]]
+        order = out["order"]
+        for i, r2 in enumerate(order):
+            for r1 in order[i + 1 :]:
+                if r2[0] in _reach(edges, r1[0]):
+                    return True
+        for x in SNAMES:
+            anc = _reach(edges, x) | {x}
+            exp = False
+            for r in order:
+                if r[0] in anc and r[-1] in ("allow", "deny"):
+                    exp = r[-1] == "allow"
+                    break
+            if out["dec"][x] != exp:
+                return True
+        return False
     return pc.replay(obj)
